@@ -93,13 +93,16 @@ PROPS["C17"] = dict(
     quick=dict(workers=16, cases=80000, min_nontrivial=300),
     thorough=dict(workers=16, cases=2000000, min_nontrivial=1500, budget_s=3000,
                   fuzz=dict(target="f17_gridindex", runs=200000, jobs=8, max_len=512)),
-    rule="PolarGrid(radii, angles[, split]) with nr 2..65 (uniform / geometric / random-ratio / midpoint-nested radii, "
+    rule="Three constructors: 60% PolarGrid(radii, angles[, split]), 30% the parametric constructor the solver uses (nr_exp 2..5, "
+         "ntheta_exp -1/2..6, anisotropic_factor 0..3, divideBy2 0..2, refinement radius inside the domain; coordinate arrays as "
+         "the grid reports them), 10% the file constructor (arrays written with 17 digits); the grid under test is the constructed "
+         "object, a copy-constructed, a copy-assigned (onto a smaller grid) or a twice-moved one (20% each). Vector grids: nr 2..65 (uniform / geometric / random-ratio / midpoint-nested radii, "
          "R0/Rmax from 1e-8 to 0.5), ntheta 2..64 even, powers of two and not (uniform, mirrored non-uniform, "
          "midpoint-nested angles with antipodal partners by construction), automatic split or explicit split below R0, "
          "above Rmax, exactly on a radius, on Rmax, or anywhere between; unwrapped angular indices in +-1e6 and at "
          "INT_MIN/INT_MAX; every grid is coarsened repeatedly down to the smallest grid and each coarse grid re-checked; "
          "5 kinds of inadmissible input (25% of 1 in 4 cases) must be rejected with std::invalid_argument. "
-         "Non-trivial: ntheta not a power of two, or an explicit/extreme split. Distinct: (nr, ntheta, #circles, split mode).",
+         "Non-trivial: ntheta not a power of two, an explicit/extreme split, or a parametric/file grid. Distinct: (nr, ntheta, #circles, split mode, constructor, divideBy2, anisotropy).",
     technique="property-based testing (rapidcheck) with exhaustive per-grid node marking; round-trip and reference-formula oracles under ASan/UBSan",
     level_text="For each generated grid all N nodes are marked to prove index/multiIndex are mutually inverse bijections "
                "onto 0..N-1 on that grid; fast vs reference functions, 64-bit wrap arithmetic, neighbour/spacings vs the "
@@ -433,7 +436,7 @@ PROPS["C20"] = dict(
 )
 
 PROPS["C11"] = dict(
-    harness="c11_races", flavour="rel", env={"VERIF_MAX_SHRINK_EVALS": "8"}, extra_targets={"tsan": ["c11_tsan_driver"]}, parallel=4, model_guard="tools/check_omp_constructs.py",
+    harness="c11_races", flavour="rel", intermittent_replays=10, env={"VERIF_MAX_SHRINK_EVALS": "8"}, extra_targets={"tsan": ["c11_tsan_driver"]}, parallel=4, model_guard="tools/check_omp_constructs.py",
     quick=dict(workers=8, cases=480, min_nontrivial=200),
     thorough=dict(workers=4, cases=6000, min_nontrivial=2000, budget_s=3400),
     rule="(operator, shape class, thread count): operators ResidualGive/Take, SmootherGive/Take, ExtrapolatedSmootherGive/"
@@ -457,7 +460,7 @@ PROPS["C11"] = dict(
 )
 
 PROPS["C12"] = dict(
-    harness="c12_repro", flavour="rel", env={"VERIF_MAX_SHRINK_EVALS": "100"},
+    harness="c12_repro", flavour="rel", intermittent_replays=10, env={"VERIF_MAX_SHRINK_EVALS": "100"},
     quick=dict(workers=16, cases=6400, min_nontrivial=200),
     thorough=dict(workers=8, cases=24000, min_nontrivial=3000, budget_s=3300),
     rule="Operators and shape classes as C11 (residual, smoothers, direct solvers, level caches, transfers below and above "
